@@ -71,16 +71,19 @@ def run(ctx: Ctx) -> None:
         n, shape, imps = gen_graph(rnd)
         if hidx == 0:
             n, shape, imps = 3, 'chain', {0: [], 1: [0], 2: [1]}
-        enabled = rnd.random() < .8 or hidx == 0
+        if hidx == 1:
+            n, shape, imps = 2, 'chain', {0: [], 1: [0]}
+        enabled = rnd.random() < .8 or hidx <= 1
         proj_dir = os.path.join(root, 'c05_%d' % hidx)
         p = cli.Project(proj_dir, output_dirs=['./out'], cache_enabled=enabled)
         variant = {i: 0 for i in range(n)}
         for i in range(n):
-            p.edit('m%d' % i, module_src(i, imps[i], 0, 0))
+            p.edit('m%d' % i, module_src(i, imps[i], 0, 0), step=0)
         hist, ops_model, obs_impl = [], [], []
         edited = set()
         nontrivial = False
-        steps = [('run',), ('edit', 0), ('run',)] if hidx == 0 else None
+        # fixed histories first: the 3-chain edit, and two runs in a row (the second one restores every table from the cache)
+        steps = [('run',), ('edit', 0), ('run',)] if hidx == 0 else [('run',), ('run',), ('edit', 1), ('run',)] if hidx == 1 else None
         for step in range(len(steps) if steps else rnd.randint(2, 5)):
             if steps:
                 op = steps[step]
@@ -90,8 +93,9 @@ def run(ctx: Ctx) -> None:
             if op[0] == 'edit':
                 m = op[1]
                 variant[m] = (variant[m] + rnd.randint(1, len(TYPES) - 1)) % len(TYPES)
-                p.edit('m%d' % m, module_src(m, imps[m], variant[m], 0))
-                hist.append(('edit', m, variant[m]))
+                step = rnd.choice([0.5, 0.25, 1.5])          # half of the edits stay within the same integer second
+                p.edit('m%d' % m, module_src(m, imps[m], variant[m], 0), step=step)
+                hist.append(('edit', m, variant[m], step))
                 ops_model.append('(Edit nat %d %d)' % (m, variant[m]))
                 edited.add(m)
             elif op[0] == 'clear':
@@ -201,9 +205,11 @@ def replay(ctx: Ctx, data: dict) -> int:
     for i in range(n):
         p.edit('m%d' % i, module_src(i, imps[i], 0, 0))
     warm = cold = None
+    for i in range(n):
+        p.edit('m%d' % i, module_src(i, imps[i], 0, 0), step=0)
     for op in data['history']:
         if op[0] == 'edit':
-            p.edit('m%d' % op[1], module_src(op[1], imps[op[1]], op[2], 0))
+            p.edit('m%d' % op[1], module_src(op[1], imps[op[1]], op[2], 0), step=op[3] if len(op) > 3 else None)
         elif op[0] == 'clear':
             shutil.rmtree(os.path.join(proj_dir, '.cache'), ignore_errors=True)
         else:
